@@ -14,15 +14,26 @@ import (
 )
 
 // The quoted datum table: text of the datum and the object(s) it denotes,
-// built by Go construction (never through slip's reader or printer). Where
-// Common Lisp and slip's documentation leave the exact type open (the float
-// format of an unsuffixed 1.5) every acceptable object is listed.
+// built by Go construction or written down in the harness' own rendering
+// (lisp.Show) - never through slip's reader or printer. Where Common Lisp and
+// slip's documentation leave the exact object open (the float format of an
+// unsuffixed 1.5, the home package spelling of a qualified symbol) every
+// acceptable rendering is listed.
 type qdatum struct {
 	name     string
 	text     string
 	want     []slip.Object
 	compound bool
+	// round 8
+	show   []string // accepted renderings when the object is not built by Go construction (want == nil)
+	weak   bool     // the language definition does not fix the datum (backquote): only "not evaluated", "no fault" and "same on every evaluation" are demanded
+	value  bool     // numbers and characters: one quote form evaluated twice gives eql objects; everything else: the identical (eq) object
+	isNil  bool     // the datum is the empty list
+	probes []qprobe // what a program sees when it takes the datum apart
 }
+
+// qprobe: an expression over X (the quoted form) and the rendering of its value.
+type qprobe struct{ expr, want string }
 
 func bigOf(s string) *slip.Bignum {
 	b, _ := new(big.Int).SetString(s, 10)
@@ -31,39 +42,111 @@ func bigOf(s string) *slip.Bignum {
 
 func sym(s string) slip.Object { return slip.Symbol(s) }
 
+func fixnums(is ...int) slip.List {
+	l := make(slip.List, len(is))
+	for i, v := range is {
+		l[i] = slip.Fixnum(v)
+	}
+	return l
+}
+
 var datums = []qdatum{
-	{"fixnum", "42", []slip.Object{slip.Fixnum(42)}, false},
-	{"negative-fixnum", "-7", []slip.Object{slip.Fixnum(-7)}, false},
-	{"zero", "0", []slip.Object{slip.Fixnum(0)}, false},
-	{"bignum", "12345678901234567890123", []slip.Object{bigOf("12345678901234567890123")}, false},
-	{"ratio", "2/3", []slip.Object{(*slip.Ratio)(big.NewRat(2, 3))}, false},
-	{"float", "1.5", []slip.Object{slip.DoubleFloat(1.5), slip.SingleFloat(1.5)}, false},
-	{"double-float", "2.5d0", []slip.Object{slip.DoubleFloat(2.5)}, false},
-	{"string", `"hi"`, []slip.Object{slip.String("hi")}, false},
-	{"empty-string", `""`, []slip.Object{slip.String("")}, false},
-	{"string-with-escape", `"a\"b"`, []slip.Object{slip.String(`a"b`)}, false},
-	{"character", `#\a`, []slip.Object{slip.Character('a')}, false},
-	{"character-name", `#\Space`, []slip.Object{slip.Character(' ')}, false},
-	{"symbol", "foo", []slip.Object{sym("foo")}, false},
-	{"symbol-mixed-case", "Foo", []slip.Object{sym("foo")}, false},
-	{"piped-symbol", "|Foo|", []slip.Object{sym("Foo")}, false},
-	{"keyword", ":key", []slip.Object{sym(":key")}, false},
-	{"nil", "nil", []slip.Object{nil}, false},
-	{"empty-list", "()", []slip.Object{nil}, false},
-	{"t", "t", []slip.Object{slip.True}, false},
-	{"list", "(1 2 3)", []slip.Object{slip.List{slip.Fixnum(1), slip.Fixnum(2), slip.Fixnum(3)}}, true},
-	{"nested-list", `(1 (2 b) "x" #\a nil)`, []slip.Object{slip.List{slip.Fixnum(1), slip.List{slip.Fixnum(2), sym("b")},
-		slip.String("x"), slip.Character('a'), nil}}, true},
-	{"dotted-pair", "(a . b)", []slip.Object{slip.List{sym("a"), slip.Tail{Value: sym("b")}}}, true},
-	{"dotted-list", "(1 2 . 3)", []slip.Object{slip.List{slip.Fixnum(1), slip.Fixnum(2), slip.Tail{Value: slip.Fixnum(3)}}}, true},
-	{"list-that-looks-like-a-call", "(+ 1 2)", []slip.Object{slip.List{sym("+"), slip.Fixnum(1), slip.Fixnum(2)}}, true},
-	{"list-that-looks-like-a-trace-call", "(tr (quote kq) 1)", []slip.Object{slip.List{sym("tr"), slip.List{sym("quote"), sym("kq")}, slip.Fixnum(1)}}, true},
-	{"list-that-looks-like-a-special-form", "(if a (setq b 1) (let ((c 2)) c))", []slip.Object{slip.List{sym("if"), sym("a"),
+	{name: "fixnum", text: "42", want: []slip.Object{slip.Fixnum(42)}, value: true},
+	{name: "negative-fixnum", text: "-7", want: []slip.Object{slip.Fixnum(-7)}, value: true},
+	{name: "zero", text: "0", want: []slip.Object{slip.Fixnum(0)}, value: true},
+	{name: "bignum", text: "12345678901234567890123", want: []slip.Object{bigOf("12345678901234567890123")}, value: true},
+	{name: "ratio", text: "2/3", want: []slip.Object{(*slip.Ratio)(big.NewRat(2, 3))}, value: true},
+	{name: "float", text: "1.5", want: []slip.Object{slip.DoubleFloat(1.5), slip.SingleFloat(1.5)}, value: true},
+	{name: "double-float", text: "2.5d0", want: []slip.Object{slip.DoubleFloat(2.5)}, value: true},
+	{name: "string", text: `"hi"`, want: []slip.Object{slip.String("hi")}},
+	{name: "empty-string", text: `""`, want: []slip.Object{slip.String("")}},
+	{name: "string-with-escape", text: `"a\"b"`, want: []slip.Object{slip.String(`a"b`)}},
+	{name: "character", text: `#\a`, want: []slip.Object{slip.Character('a')}, value: true},
+	{name: "character-name", text: `#\Space`, want: []slip.Object{slip.Character(' ')}, value: true},
+	{name: "symbol", text: "foo", want: []slip.Object{sym("foo")}},
+	{name: "symbol-mixed-case", text: "Foo", want: []slip.Object{sym("foo")}},
+	{name: "piped-symbol", text: "|Foo|", want: []slip.Object{sym("Foo")}},
+	{name: "keyword", text: ":key", want: []slip.Object{sym(":key")}},
+	{name: "nil", text: "nil", want: []slip.Object{nil}, isNil: true},
+	{name: "empty-list", text: "()", want: []slip.Object{nil}, isNil: true},
+	{name: "t", text: "t", want: []slip.Object{slip.True}},
+	{name: "list", text: "(1 2 3)", want: []slip.Object{fixnums(1, 2, 3)}, compound: true,
+		probes: []qprobe{{"(car X)", "1"}, {"(cdr (cdr X))", "(3)"}, {"(length X)", "3"}}},
+	{name: "nested-list", text: `(1 (2 b) "x" #\a nil)`, want: []slip.Object{slip.List{slip.Fixnum(1), slip.List{slip.Fixnum(2), sym("b")},
+		slip.String("x"), slip.Character('a'), nil}}, compound: true},
+	{name: "dotted-pair", text: "(a . b)", want: []slip.Object{slip.List{sym("a"), slip.Tail{Value: sym("b")}}}, compound: true,
+		probes: []qprobe{{"(car X)", "a"}, {"(cdr X)", "b"}}},
+	{name: "dotted-list", text: "(1 2 . 3)", want: []slip.Object{slip.List{slip.Fixnum(1), slip.Fixnum(2), slip.Tail{Value: slip.Fixnum(3)}}}, compound: true,
+		probes: []qprobe{{"(cdr (cdr X))", "3"}}},
+	{name: "list-that-looks-like-a-call", text: "(+ 1 2)", want: []slip.Object{slip.List{sym("+"), slip.Fixnum(1), slip.Fixnum(2)}}, compound: true},
+	{name: "list-that-looks-like-a-trace-call", text: "(tr (quote kq) 1)", want: []slip.Object{slip.List{sym("tr"), slip.List{sym("quote"), sym("kq")}, slip.Fixnum(1)}}, compound: true},
+	{name: "list-that-looks-like-a-special-form", text: "(if a (setq b 1) (let ((c 2)) c))", want: []slip.Object{slip.List{sym("if"), sym("a"),
 		slip.List{sym("setq"), sym("b"), slip.Fixnum(1)},
-		slip.List{sym("let"), slip.List{slip.List{sym("c"), slip.Fixnum(2)}}, sym("c")}}}, true},
-	{"list-headed-by-lambda", "(lambda (x) x)", []slip.Object{slip.List{sym("lambda"), slip.List{sym("x")}, sym("x")}}, true},
-	{"list-headed-by-quote", "(quote a)", []slip.Object{slip.List{sym("quote"), sym("a")}}, true},
-	{"vector", "#(1 2 3)", []slip.Object{slip.NewVector(3, slip.TrueSymbol, nil, slip.List{slip.Fixnum(1), slip.Fixnum(2), slip.Fixnum(3)}, true)}, true},
+		slip.List{sym("let"), slip.List{slip.List{sym("c"), slip.Fixnum(2)}}, sym("c")}}}, compound: true},
+	{name: "list-headed-by-lambda", text: "(lambda (x) x)", want: []slip.Object{slip.List{sym("lambda"), slip.List{sym("x")}, sym("x")}}, compound: true},
+	{name: "list-headed-by-quote", text: "(quote a)", want: []slip.Object{slip.List{sym("quote"), sym("a")}}, compound: true,
+		probes: []qprobe{{"(car X)", "quote"}, {"(car (cdr X))", "a"}}},
+	{name: "vector", text: "#(1 2 3)", want: []slip.Object{slip.NewVector(3, slip.TrueSymbol, nil, fixnums(1, 2, 3), true)}, compound: true},
+
+	// ---- round 8: every reader syntax that denotes a datum
+	{name: "quote-shorthand-inside-a-list", text: "(a 'b)", show: []string{"(a (quote b))"}, compound: true,
+		probes: []qprobe{{"(car (car (cdr X)))", "quote"}, {"(car (cdr (car (cdr X))))", "b"}, {"(length (car (cdr X)))", "2"}}},
+	{name: "quote-shorthand-datum", text: "'a", show: []string{"(quote a)"}, compound: true,
+		probes: []qprobe{{"(car X)", "quote"}, {"(car (cdr X))", "a"}}},
+	{name: "quote-shorthand-before-a-list-inside-a-list", text: "(1 '(2 '3))", show: []string{"(1 (quote (2 (quote 3))))"}, compound: true,
+		probes: []qprobe{{"(car (cdr (car (cdr X))))", "(2 (quote 3))"}}},
+	{name: "function-shorthand-inside-a-list", text: "(a #'car)", show: []string{"(a (function car))"}, compound: true,
+		probes: []qprobe{{"(car (car (cdr X)))", "function"}, {"(car (cdr (car (cdr X))))", "car"}}},
+	{name: "function-shorthand-datum", text: "#'car", show: []string{"(function car)"}, compound: true,
+		probes: []qprobe{{"(car X)", "function"}}},
+	{name: "list-headed-by-function", text: "(function car)", show: []string{"(function car)"}, compound: true,
+		probes: []qprobe{{"(car X)", "function"}}},
+	{name: "backquote-inside-a-list", text: "(a `(b ,c ,@d))", weak: true, compound: true},
+	{name: "backquote-datum", text: "`(b ,c)", weak: true, compound: true},
+	{name: "dotted-pair-whose-tail-is-a-list", text: "(a . (b))", show: []string{"(a b)"}, compound: true,
+		probes: []qprobe{{"(cdr X)", "(b)"}, {"(length X)", "2"}, {"(car (cdr X))", "b"}, {"(equal X (list 'a 'b))", "t"}}},
+	{name: "dotted-pair-whose-tail-is-nil", text: "(1 . nil)", show: []string{"(1)"}, compound: true,
+		probes: []qprobe{{"(cdr X)", "nil"}, {"(length X)", "1"}}},
+	{name: "dotted-pairs-all-the-way", text: "(1 . (2 . (3 . nil)))", show: []string{"(1 2 3)"}, compound: true,
+		probes: []qprobe{{"(length X)", "3"}, {"(car (cdr (cdr X)))", "3"}, {"(equal X (list 1 2 3))", "t"}}},
+	{name: "association-list", text: "((a . 1) (b . 2))", show: []string{"((a . 1) (b . 2))"}, compound: true,
+		probes: []qprobe{{"(cdr (car X))", "1"}, {"(car (car (cdr X)))", "b"}}},
+	{name: "list-of-empty-lists", text: "(nil () (nil) t)", show: []string{"(nil nil (nil) t)"}, compound: true,
+		probes: []qprobe{{"(car X)", "nil"}, {"(car (cdr X))", "nil"}, {"(length X)", "4"}}},
+	{name: "nested-vector", text: "#(1 #(2) (3 . 4) \"s\" #\\c)", show: []string{`#(1 #(2) (3 . 4) "s" #\'c')`}, compound: true},
+	{name: "empty-vector", text: "#()", show: []string{"#()"}, compound: true},
+	{name: "vector-inside-a-list", text: "(1 #(2 3) 4)", show: []string{"(1 #(2 3) 4)"}, compound: true},
+	{name: "array-2d", text: "#2A((1 2) (3 4))", show: []string{"#2A((1 2) (3 4))"}, compound: true,
+		probes: []qprobe{{"(aref X 1 0)", "3"}}},
+	{name: "array-inside-a-list", text: "(a #2A((1) (2)))", show: []string{"(a #2A((1) (2)))"}, compound: true},
+	{name: "complex", text: "#C(1 2)", show: []string{"#C(1 2)"}, value: true},
+	{name: "single-float", text: "1.5s0", show: []string{"f1.5"}, value: true},
+	{name: "single-float-f", text: "1.5f0", show: []string{"f1.5"}, value: true},
+	{name: "long-float", text: "1.5l0", show: []string{"l1.5"}, value: true},
+	{name: "float-with-exponent", text: "1e3", show: []string{"f1000", "d1000"}, value: true},
+	{name: "negative-zero-float", text: "-0.0", show: []string{"f-0", "d-0"}, value: true},
+	{name: "hexadecimal-integer", text: "#xFF", show: []string{"255"}, value: true},
+	{name: "binary-integer", text: "#b-101", show: []string{"-5"}, value: true},
+	{name: "octal-integer", text: "#o17", show: []string{"15"}, value: true},
+	{name: "integer-with-trailing-dot", text: "12.", show: []string{"12"}, value: true},
+	{name: "integer-with-plus-sign", text: "+5", show: []string{"5"}, value: true},
+	{name: "ratio-not-in-lowest-terms", text: "4/6", show: []string{"R2/3"}, value: true},
+	{name: "ratio-that-is-an-integer", text: "6/3", show: []string{"2"}, value: true},
+	{name: "negative-bignum", text: "-98765432109876543210", show: []string{"B-98765432109876543210"}, value: true},
+	{name: "character-upper-case", text: `#\A`, show: []string{`#\'A'`}, value: true},
+	{name: "character-newline", text: `#\Newline`, show: []string{`#\'\n'`}, value: true},
+	{name: "character-parenthesis", text: `#\(`, show: []string{`#\'('`}, value: true},
+	{name: "character-non-ascii", text: `#\é`, show: []string{`#\'é'`}, value: true},
+	{name: "string-with-newline-and-unicode", text: "\"a\nb é😀\"", show: []string{`"a\nb é😀"`}},
+	{name: "string-with-backslash", text: `"a\\b"`, show: []string{`"a\\b"`}},
+	{name: "string-that-looks-like-code", text: `"(tr 'kq 1)"`, show: []string{`"(tr 'kq 1)"`}},
+	{name: "keyword-inside-a-list", text: "(:a 1 :b)", show: []string{"(:a 1 :b)"}, compound: true},
+	{name: "symbol-with-package-prefix", text: "cl:car", show: []string{"car", "cl:car", "common-lisp:car"}},
+	{name: "symbol-with-internal-package-prefix", text: "cl-user::foo", show: []string{"foo", "cl-user::foo", "common-lisp-user::foo"}},
+	{name: "keyword-with-package-prefix", text: "keyword:key", show: []string{":key", "keyword:key"}},
+	{name: "symbol-with-escaped-space", text: "|a b|", show: []string{"a b"}},
+	{name: "symbols-named-like-special-operators", text: "(quote function lambda let nil t)", show: []string{"(quote function lambda let nil t)"}, compound: true,
+		probes: []qprobe{{"(length X)", "6"}}},
 }
 
 // A quote context: the program around the quoted form Q and what its value
@@ -73,23 +156,71 @@ type qctx struct {
 	prog  string // Q = the quoted form, NAME = a unique function name
 	want  string // S = rendering of the datum
 	twice bool
+	// round 8: what the context checks. "" = the value is the datum (want); "identity" = want is a list of
+	// flags over two evaluations of ONE quote form (eq eql), demanded as (t t) or - numbers and characters -
+	// (? t); "truth" = the datum as a test; "nil" = only for the empty list: it is the object nil
+	kind string
 }
 
 var quoteCtxs = []qctx{
-	{"top-level", "Q", "S", false},
-	{"argument", "(list Q 7 Q)", "(S 7 S)", false},
-	{"let-init", "(let ((x Q)) x)", "S", false},
-	{"lambda-argument", "(funcall (lambda (a) a) Q)", "S", false},
-	{"if-branch", "(if nil 1 Q)", "S", false},
-	{"function-body-called-twice", "(progn (defun NAME () Q) (list (NAME) (NAME)))", "(S S)", true},
-	{"loop-body-run-twice", "(let ((r nil)) (dotimes (i 2) (setq r (cons Q r))) r)", "(S S)", true},
+	{name: "top-level", prog: "Q", want: "S"},
+	{name: "argument", prog: "(list Q 7 Q)", want: "(S 7 S)"},
+	{name: "let-init", prog: "(let ((x Q)) x)", want: "S"},
+	{name: "lambda-argument", prog: "(funcall (lambda (a) a) Q)", want: "S"},
+	{name: "if-branch", prog: "(if nil 1 Q)", want: "S"},
+	{name: "function-body-called-twice", prog: "(progn (defun NAME () Q) (list (NAME) (NAME)))", want: "(S S)", twice: true},
+	{name: "loop-body-run-twice", prog: "(let ((r nil)) (dotimes (i 2) (setq r (cons Q r))) r)", want: "(S S)", twice: true},
+	// round 8
+	{name: "let*-binding-returned-from-a-function", prog: "(progn (defun NAME () (let* ((x Q) (y x)) y)) (NAME))", want: "S"},
+	{name: "passed-through-a-named-identity-function", prog: "(progn (defun NAME (a) a) (list (funcall #'NAME Q) (apply 'NAME (list Q))))", want: "(S S)"},
+	{name: "value-of-progn-cond-and-or", prog: "(list (progn 1 Q) (cond (nil 1) (t Q)) (and t Q) (or nil Q))", want: "(S S S S)"},
+	{name: "lambda-body-mapped-over-two-elements", prog: "(mapcar (lambda (a) Q) (list 1 2))", want: "(S S)", twice: true},
+	{name: "third-evaluation-after-two", prog: "(progn (defun NAME () Q) (NAME) (NAME) (NAME))", want: "S", twice: true},
+	{name: "same-object-on-every-evaluation-of-a-function-body", prog: "(progn (defun NAME () Q) (let ((a (NAME)) (b (NAME))) (list (eq a b) (eql a b))))", kind: "identity", twice: true},
+	{name: "same-object-on-every-evaluation-of-a-loop-body", prog: "(let ((r nil)) (dotimes (i 2) (setq r (cons Q r))) (list (eq (car r) (car (cdr r))) (eql (car r) (car (cdr r)))))", kind: "identity", twice: true},
+	{name: "same-object-through-a-closure-called-twice", prog: "(let ((g (lambda () Q))) (let ((a (funcall g)) (b (funcall g))) (list (eq a b) (eql a b))))", kind: "identity", twice: true},
+	{name: "used-as-a-test", prog: "(list (if Q 1 2) (when Q 1) (unless Q 2) (and Q 1) (or Q 2) (cond (Q 1) (t 2)) (not Q) (null Q))", kind: "truth"},
+	{name: "the-empty-list-is-nil", prog: "(list (eq Q nil) (eq nil Q) (eql Q nil) (eq Q Q) (listp Q) (length Q))", kind: "nil"},
+}
+
+func quoteBound() string {
+	n := 0
+	for ci := range quoteCtxs {
+		for di := range datums {
+			if quoteApplies(&quoteCtxs[ci], &datums[di]) {
+				n += 2
+			}
+		}
+	}
+	probes := 0
+	for di := range datums {
+		probes += 2 * len(datums[di].probes)
+	}
+	return fmt.Sprintf("quote: %d data (every reader syntax that denotes a datum) x %d contexts x 2 notations = %d cases, plus %d take-apart probes",
+		len(datums), len(quoteCtxs), n, probes)
+}
+
+func quoteApplies(c *qctx, d *qdatum) bool {
+	if c.kind == "nil" {
+		return d.isNil
+	}
+	return true
 }
 
 func enumerateQuotes(emit func(string)) {
 	for ci := range quoteCtxs {
 		for _, via := range []string{"quote", "'"} {
 			for di := range datums {
-				emit(fmt.Sprintf("q|%s|%s|%s", quoteCtxs[ci].name, via, datums[di].name))
+				if quoteApplies(&quoteCtxs[ci], &datums[di]) {
+					emit(fmt.Sprintf("q|%s|%s|%s", quoteCtxs[ci].name, via, datums[di].name))
+				}
+			}
+		}
+	}
+	for _, via := range []string{"quote", "'"} {
+		for di := range datums {
+			for pi := range datums[di].probes {
+				emit(fmt.Sprintf("q|probe:%d|%s|%s", pi, via, datums[di].name))
 			}
 		}
 	}
@@ -108,6 +239,12 @@ func findQuote(ctx, dat string) (*qctx, *qdatum) {
 			d = &datums[i]
 		}
 	}
+	if d != nil && strings.HasPrefix(ctx, "probe:") {
+		var pi int
+		if _, err := fmt.Sscanf(ctx, "probe:%d", &pi); err == nil && 0 <= pi && pi < len(d.probes) {
+			c = &qctx{name: "taken-apart", prog: strings.ReplaceAll(d.probes[pi].expr, "X", "Q"), want: d.probes[pi].want, kind: "probe"}
+		}
+	}
 	return c, d
 }
 
@@ -119,14 +256,51 @@ type qverdict struct {
 	got  observation
 }
 
+func (d *qdatum) renderings() []string {
+	if 0 < len(d.show) {
+		return d.show
+	}
+	var out []string
+	for _, w := range d.want {
+		out = append(out, lisp.Show(w))
+	}
+	return out
+}
+
 func judgeQuote(c *qctx, via string, d *qdatum, prefix string) (v qverdict) {
 	q := "(quote " + d.text + ")"
 	if via == "'" {
 		q = "'" + d.text
 	}
 	v.text = strings.ReplaceAll(strings.ReplaceAll(c.prog, "NAME", prefix), "Q", q)
-	for _, w := range d.want {
-		v.want = append(v.want, strings.ReplaceAll(c.want, "S", lisp.Show(w)))
+	fail := "not-the-datum"
+	switch c.kind {
+	case "":
+		for _, w := range d.renderings() {
+			v.want = append(v.want, strings.ReplaceAll(c.want, "S", w))
+		}
+	case "probe":
+		v.want = []string{c.want}
+		fail = "taken-apart-differs"
+	case "identity":
+		fail = "not-the-same-object-on-the-next-evaluation"
+		if d.value {
+			v.want = []string{"(t t)", "(nil t)"}
+		} else {
+			v.want = []string{"(t t)"}
+		}
+	case "truth":
+		fail = "wrong-as-a-test"
+		if d.isNil {
+			v.want = []string{"(2 nil 2 nil 2 2 t t)"}
+		} else {
+			for _, w := range d.renderings() {
+				v.want = append(v.want, strings.ReplaceAll("(1 1 nil 1 S 1 nil nil)", "S", w))
+			}
+		}
+	case "nil":
+		fail = "empty-list-is-not-nil"
+		v.want = []string{"(t t t t t 0)"}
 	}
 	v.got = runSlip(v.text, 100000)
 	if strings.Contains(c.prog, "NAME") {
@@ -139,15 +313,41 @@ func judgeQuote(c *qctx, via string, d *qdatum, prefix string) (v qverdict) {
 		v.kind = "go-fault"
 	case 0 < len(v.got.trace):
 		v.kind = "datum-was-evaluated"
+	case d.weak && c.kind != "identity":
+		// the language definition does not say which object a backquote form denotes: whatever it is, it is
+		// not evaluated (checked above), quoting it signals nothing, and every evaluation gives the same
+		switch {
+		case v.got.err != nil:
+			v.kind = "error:" + v.got.err.Class
+		case c.twice && c.kind == "" && c.want == "(S S)" && !sameHalves(v.got.val):
+			v.kind = "differs-on-the-next-evaluation"
+		default:
+			v.ok = true
+		}
 	default:
-		v.kind = "not-the-datum"
+		v.kind = fail
 		if v.got.err == nil {
 			for _, w := range v.want {
 				v.ok = v.ok || w == v.got.val
 			}
+		} else if c.kind != "" {
+			v.kind = "error:" + v.got.err.Class
 		}
 	}
 	return
+}
+
+// sameHalves: the rendering of a two-element list whose elements render alike.
+func sameHalves(s string) bool {
+	if len(s) < 2 || s[0] != '(' || s[len(s)-1] != ')' {
+		return false
+	}
+	in := s[1 : len(s)-1]
+	if len(in)%2 != 1 {
+		return false
+	}
+	h := len(in) / 2
+	return in[h] == ' ' && in[:h] == in[h+1:]
 }
 
 func (v *qverdict) describe() string {
@@ -158,7 +358,7 @@ func (v *qverdict) describe() string {
 	if 0 < len(v.got.trace) {
 		got += " with trace [" + clip(v.got.trace) + "]"
 	}
-	return fmt.Sprintf("%s => slip: %s; the datum is: %s", v.text, got, strings.Join(v.want, " or "))
+	return fmt.Sprintf("%s => slip: %s; the language definition gives: %s", v.text, got, strings.Join(v.want, " or "))
 }
 
 func execQuote(spec string) (res engine.Result) {
@@ -182,6 +382,22 @@ func execQuote(spec string) (res engine.Result) {
 	if c.twice {
 		res.Hit("quote-evaluated-twice")
 	}
+	switch c.kind {
+	case "identity":
+		res.Hit("quote-same-object-on-the-next-evaluation")
+	case "probe":
+		res.Hit("quote-datum-taken-apart")
+	case "nil":
+		res.Hit("quote-empty-list-is-nil")
+	case "truth":
+		res.Hit("quote-datum-as-a-test")
+	}
+	if d.weak {
+		res.Hit("quote-datum-not-fixed-by-the-language-definition")
+	}
+	if strings.Contains(d.text, "'") && !strings.HasPrefix(d.text, `"`) {
+		res.Hit("quote-shorthand-inside-quoted-data")
+	}
 	if v.got.err != nil {
 		res.Outcome = "err:" + v.got.err.Class
 	} else {
@@ -190,15 +406,29 @@ func execQuote(spec string) (res engine.Result) {
 	if v.ok {
 		return
 	}
-	// The context is part of the signature only when the failure needs it:
-	// the same datum, same notation, at top level is fine.
-	sig := fmt.Sprintf("quote notation=%s datum=%s kind=%s", via, d.name, v.kind)
+	// The context and the notation are part of the signature only when the failure needs them: the same
+	// datum at top level is fine / the same datum in the other notation is fine.
+	notation := via
+	other := "quote"
+	if via == "quote" {
+		other = "'"
+	}
+	if ov := judgeQuote(c, other, d, prefix+"o"); !ov.ok && ov.kind == v.kind {
+		notation = "any"
+	}
+	sig := fmt.Sprintf("quote notation=%s datum=%s kind=%s", notation, d.name, v.kind)
 	detail := v.describe()
 	if c.name != "top-level" {
 		top := judgeQuote(&quoteCtxs[0], via, d, prefix+"t")
 		if top.ok {
-			sig = fmt.Sprintf("quote notation=%s datum=%s context=%s kind=%s", via, d.name, c.name, v.kind)
+			sig = fmt.Sprintf("quote notation=%s datum=%s context=%s kind=%s", notation, d.name, c.name, v.kind)
 		} else {
+			if ov := judgeQuote(&quoteCtxs[0], other, d, prefix+"p"); !ov.ok && ov.kind == top.kind {
+				notation = "any"
+			} else {
+				notation = via
+			}
+			sig = fmt.Sprintf("quote notation=%s datum=%s kind=%s", notation, d.name, top.kind)
 			detail += " [already at top level: " + top.describe() + "]"
 		}
 	}
